@@ -1,4 +1,200 @@
-(* C12 — statements are being added; see DESIGN.md section 7. *)
-From XSG.Model Require Import Strings.
-Example C12_placeholder : True. Proof. exact I. Qed.
-Print Assumptions C12_placeholder.
+(* C12 — Command-line program: for every input file and every combination of --parser, --derive
+   and --sort, the program exits 0 and emits exactly the line
+   `use serde::{Deserialize, Serialize};`, an empty line, and the library's rendering for the
+   corresponding options: into the output file if one is named (stdout staying empty), otherwise
+   to stdout followed by one newline. If the input is unreadable, not UTF-8 or rejected by the
+   parser, or the output cannot be created, it exits with status 1 and a diagnostic on stderr,
+   prints nothing on stdout and neither creates nor modifies the named output file when the
+   input was at fault.
+   Model: Model/Cli.v (`cli_run` : arguments, outcome of reading the input, outcome of creating
+   the output |-> list of effects and exit status).
+   Only statements; every proof is `exact <lemma of Proofs/CliProofs.v>`. *)
+From Coq Require Import String List NArith.
+From XSG.Model Require Import Strings Necessity Element Parser Render Cli.
+From XSG.Proofs Require Import ParserTotal CliProofs.
+Import ListNotations.
+Local Open Scope list_scope.
+Local Open Scope N_scope.
+
+(* ---- 1. success, no output path: header + rendering + one newline on stdout, exit 0 ---- *)
+Theorem C12_stdout : forall a evs e c,
+  into_struct_ev evs = Ok e -> a_output a = false ->
+  cli_run a (RText evs) c = ([Stdout (header ++ to_serde_struct (opts_of a) e ++ [10])], 0).
+Proof. exact cli_stdout. Qed.
+
+(* ---- 2. success, output path named and creatable: the file gets header + rendering (no
+        trailing newline), nothing on stdout, exit 0 ---- *)
+Theorem C12_file : forall a evs e,
+  into_struct_ev evs = Ok e -> a_output a = true ->
+  cli_run a (RText evs) true
+  = ([CreateTruncate; WriteFile (header ++ to_serde_struct (opts_of a) e)], 0).
+Proof. exact cli_file. Qed.
+
+(* ---- 3. the output cannot be created: diagnostic, exit 1, nothing else ---- *)
+Theorem C12_create_fault : forall a evs e,
+  into_struct_ev evs = Ok e -> a_output a = true ->
+  cli_run a (RText evs) false = ([Stderr], 1).
+Proof. exact cli_create_fault. Qed.
+
+(* ---- 4. the input is at fault (unreadable / not UTF-8 / rejected by the parser): diagnostic,
+        exit 1; no Create, no Write, no Stdout, whatever the arguments ---- *)
+Theorem C12_input_fault : forall a r c,
+  (r = RFail \/ exists evs x, r = RText evs /\ into_struct_ev evs = Err x) ->
+  cli_run a r c = ([Stderr], 1).
+Proof. exact cli_input_fault. Qed.
+
+(* the parser never answers anything but Ok / Err, so 1-4 cover every run *)
+Theorem C12_parse_ok_or_err : forall evs,
+  (exists e, into_struct_ev evs = Ok e) \/ (exists x, into_struct_ev evs = Err x).
+Proof. exact parse_ok_or_err. Qed.
+
+Theorem C12_cases : forall a r c,
+  cli_run a r c = ([Stderr], 1)
+  \/ (exists t, a_output a = false /\ cli_run a r c = ([Stdout t], 0))
+  \/ (exists t, a_output a = true /\ cli_run a r c = ([CreateTruncate; WriteFile t], 0)).
+Proof. exact cli_cases. Qed.
+
+(* ---- 5. safety over ALL inputs ---- *)
+Theorem C12_exit_codes : forall a r c,
+  let (effs, code) := cli_run a r c in
+  (code = 0 \/ code = 1) /\ (code = 1 -> effs = [Stderr]) /\ (code = 0 -> ~ In Stderr effs).
+Proof. exact cli_exit_codes. Qed.
+
+Theorem C12_no_file_touched_on_input_fault : forall a r c,
+  (r = RFail \/ exists evs, r = RText evs /\ forall e, into_struct_ev evs <> Ok e) ->
+  ~ In CreateTruncate (fst (cli_run a r c)) /\ forall t, ~ In (WriteFile t) (fst (cli_run a r c)).
+Proof. exact cli_no_file_touched_on_input_fault. Qed.
+
+Theorem C12_stdout_xor_file : forall a r c t,
+  In (Stdout t) (fst (cli_run a r c)) ->
+  a_output a = false /\ ~ In CreateTruncate (fst (cli_run a r c)).
+Proof. exact cli_stdout_xor_file. Qed.
+
+Theorem C12_file_no_stdout : forall a r c t,
+  a_output a = true -> ~ In (Stdout t) (fst (cli_run a r c)).
+Proof. exact cli_file_no_stdout. Qed.
+
+(* ---- 6. the flags select exactly the library options ---- *)
+Theorem C12_options : forall a,
+  text_identifier (opts_of a) = s "$text"
+  /\ attribute_prefix (opts_of a)
+     = match a_parser a with Some PSerdeXmlRs => [] | _ => s "@" end
+  /\ derive (opts_of a)
+     = match a_derive a with Some d => d | None => s "Serialize, Deserialize" end
+  /\ sort (opts_of a) = match a_sort a with Some x => x | None => Unsorted end.
+Proof. exact cli_options. Qed.
+
+Theorem C12_options_default_quick : forall b,
+  opts_of {| a_parser := None; a_derive := None; a_sort := None; a_output := b |} = quick_xml_de.
+Proof. exact cli_options_default_quick. Qed.
+
+Theorem C12_options_explicit_quick : forall b,
+  opts_of {| a_parser := Some PQuickXmlDe; a_derive := None; a_sort := None; a_output := b |}
+  = quick_xml_de.
+Proof. exact cli_options_explicit_quick. Qed.
+
+Theorem C12_options_serde_xml_rs : forall b,
+  opts_of {| a_parser := Some PSerdeXmlRs; a_derive := None; a_sort := None; a_output := b |}
+  = serde_xml_rs.
+Proof. exact cli_options_serde_xml_rs. Qed.
+
+(* ---- 7. the header is the literal line plus an empty line; layout of the two outputs ---- *)
+Theorem C12_header : header = s "use serde::{Deserialize, Serialize};" ++ [10; 10].
+Proof. exact cli_header. Qed.
+
+Theorem C12_stdout_layout : forall a evs e c,
+  into_struct_ev evs = Ok e -> a_output a = false ->
+  cli_run a (RText evs) c
+  = ([Stdout (s "use serde::{Deserialize, Serialize};" ++ [10] ++ [10]
+              ++ to_serde_struct (opts_of a) e ++ [10])], 0).
+Proof. exact cli_stdout_layout. Qed.
+
+Theorem C12_file_layout : forall a evs e,
+  into_struct_ev evs = Ok e -> a_output a = true ->
+  cli_run a (RText evs) true
+  = ([CreateTruncate;
+      WriteFile (s "use serde::{Deserialize, Serialize};" ++ [10] ++ [10]
+                 ++ to_serde_struct (opts_of a) e)], 0).
+Proof. exact cli_file_layout. Qed.
+
+(* ---- 8. non-vacuity: `--sort name` on <a></a> ---- *)
+Example C12_ex_parse : exists e, into_struct_ev [EStart (ROk (s "a")) []; EEnd] = Ok e.
+Proof. exact cli_ex_parse. Qed.
+
+Example C12_ex_stdout :
+  cli_run {| a_parser := None; a_derive := None; a_sort := Some XmlName; a_output := false |}
+          (RText [EStart (ROk (s "a")) []; EEnd]) true
+  = ([Stdout (s "use serde::{Deserialize, Serialize};" ++ [10] ++ [10]
+              ++ s "#[derive(Serialize, Deserialize)]" ++ [10]
+              ++ s "pub struct A {" ++ [10]
+              ++ s "}" ++ [10] ++ [10] ++ [10])], 0).
+Proof. exact cli_ex_stdout. Qed.
+
+Example C12_ex_file :
+  cli_run {| a_parser := None; a_derive := None; a_sort := Some XmlName; a_output := true |}
+          (RText [EStart (ROk (s "a")) []; EEnd]) true
+  = ([CreateTruncate;
+      WriteFile (s "use serde::{Deserialize, Serialize};" ++ [10] ++ [10]
+                 ++ s "#[derive(Serialize, Deserialize)]" ++ [10]
+                 ++ s "pub struct A {" ++ [10]
+                 ++ s "}" ++ [10] ++ [10])], 0).
+Proof. exact cli_ex_file. Qed.
+
+Example C12_ex_create_fault :
+  cli_run {| a_parser := None; a_derive := None; a_sort := Some XmlName; a_output := true |}
+          (RText [EStart (ROk (s "a")) []; EEnd]) false
+  = ([Stderr], 1).
+Proof. exact cli_ex_create_fault. Qed.
+
+Example C12_ex_parse_fault :
+  (exists x, into_struct_ev [EStart (ROk (s "a")) []; EErr 3 0] = Err x)
+  /\ cli_run {| a_parser := None; a_derive := None; a_sort := Some XmlName; a_output := true |}
+             (RText [EStart (ROk (s "a")) []; EErr 3 0]) true = ([Stderr], 1).
+Proof. exact cli_ex_parse_fault. Qed.
+
+(* --sort / --derive / --parser reach the rendering: <r><b/><a/></r> *)
+Example C12_ex_sorted :
+  cli_run {| a_parser := None; a_derive := None; a_sort := Some XmlName; a_output := false |}
+          (RText [EStart (ROk (s "r")) []; EEmpty (ROk (s "b")) []; EEmpty (ROk (s "a")) []; EEnd])
+          true
+  = ([Stdout (header
+              ++ ex_struct "Serialize, Deserialize" "R" ["a: A"; "b: B"]%string
+              ++ ex_struct "Serialize, Deserialize" "A" []
+              ++ ex_struct "Serialize, Deserialize" "B" [] ++ [10])], 0).
+Proof. exact cli_ex_sorted. Qed.
+
+Example C12_ex_unsorted_derive :
+  cli_run {| a_parser := Some PSerdeXmlRs; a_derive := Some (s "Debug"); a_sort := None;
+             a_output := false |}
+          (RText [EStart (ROk (s "r")) []; EEmpty (ROk (s "b")) []; EEmpty (ROk (s "a")) []; EEnd])
+          true
+  = ([Stdout (header
+              ++ ex_struct "Debug" "R" ["b: B"; "a: A"]%string
+              ++ ex_struct "Debug" "B" []
+              ++ ex_struct "Debug" "A" [] ++ [10])], 0).
+Proof. exact cli_ex_unsorted_derive. Qed.
+
+Print Assumptions C12_stdout.
+Print Assumptions C12_file.
+Print Assumptions C12_create_fault.
+Print Assumptions C12_input_fault.
+Print Assumptions C12_parse_ok_or_err.
+Print Assumptions C12_cases.
+Print Assumptions C12_exit_codes.
+Print Assumptions C12_no_file_touched_on_input_fault.
+Print Assumptions C12_stdout_xor_file.
+Print Assumptions C12_file_no_stdout.
+Print Assumptions C12_options.
+Print Assumptions C12_options_default_quick.
+Print Assumptions C12_options_explicit_quick.
+Print Assumptions C12_options_serde_xml_rs.
+Print Assumptions C12_header.
+Print Assumptions C12_stdout_layout.
+Print Assumptions C12_file_layout.
+Print Assumptions C12_ex_parse.
+Print Assumptions C12_ex_stdout.
+Print Assumptions C12_ex_file.
+Print Assumptions C12_ex_create_fault.
+Print Assumptions C12_ex_parse_fault.
+Print Assumptions C12_ex_sorted.
+Print Assumptions C12_ex_unsorted_derive.
